@@ -136,3 +136,12 @@ Example name_in_zone_example :
   go_NameInZone 40 (bs "foo.example.com.") (bs "example.com.") = Some true /\
   go_NameInZone 40 (bs "foo\\.example.com.") (bs "example.com.") = Some true.
 Proof. vm_compute. repeat split; reflexivity. Qed.
+
+(* the hypotheses of the two "left alone" theorems hold for the authority records of the example, and
+   an in-zone, non-NS authority record is not left alone *)
+Example walk_remnant_example :
+  walk_in_zone (bs "example") (mk_rr (bs "other.invalid.") 2 1 60 (bs "NS") [FName (bs "ns.other.invalid.")]) = false /\
+  walk_verdict (fun set s v => v) (bs "example") walk_example_answer
+    (walk_example_ns ++ [MR (mk_rr (bs "sub.example.") 16 1 60 (bs "TXT") [FBytes [1; 120]])]) = false /\
+  walk_verdict (fun set s v => v) (bs "example") walk_example_answer walk_example_ns = true.
+Proof. vm_compute. repeat split; reflexivity. Qed.
